@@ -2102,6 +2102,25 @@ def run_ldap(items, run, mon):
                                 diff, {k: n1.get(k) for k in diff}, {k: n2.get(k) for k in diff}))
             else:
                 mon.inj('ldap:' + cls, LCLS[cls] + '.to_entry', e3, n1)
+            # read - modify - write: a value added to ONE list field of the decoded object is written to that field
+            # only (the decoded fields are separate values, whether they came from the entry or from a default)
+            lf_ = sorted(k for k, v in n1.items() if isinstance(v, list) and not any(isinstance(x, (dict, list)) for x in v))
+            if len(lf_) >= 2:
+                try:
+                    tgt_ = lf_[len(canon(o)) % len(lf_)]
+                    m1 = a.from_entry(copy.deepcopy(e3))
+                    m1[tgt_].append('zz9')
+                    m2 = copy.deepcopy(n1)
+                    m2[tgt_] = list(m2[tgt_]) + ['zz9']
+                    w1 = _ldap._remove_empty(a.to_entry(m1))      # pylint: disable=protected-access
+                    w2 = _ldap._remove_empty(a.to_entry(copy.deepcopy(m2)))   # pylint: disable=protected-access
+                    if canon(w1) != canon(w2):
+                        bad_ = sorted(k for k in set(w1) | set(w2) if canon(w1.get(k)) != canon(w2.get(k)))
+                        mon.hit('ldap-decoded-fields-shared', LCLS[cls] + '.from_entry',
+                                'a value appended to field %r of the decoded object is also written to %r' % (tgt_, bad_))
+                    run.tags.add('ldap-read-modify-write')
+                except Exception:  # pylint: disable=broad-except
+                    pass
             txt = canon(o)
             nkeyed = max([len(v) for v in o.values() if isinstance(v, list) and v and isinstance(v[0], dict)] + [0])
             if nkeyed >= 2 or 'null' in txt or '[]' in txt or '{}' in txt:
